@@ -633,14 +633,16 @@ class TorConfig:
         :meth:`txtorcon.TorConfig.create_socks_endpoint`
         """
 
-        if len(self.SocksPort) == 0:
+        # ("SocksPort 0" means: no listener)
+        usable = [p for p in self.SocksPort if p.split()[0] != '0']
+        if len(usable) == 0:
             raise RuntimeError(
                 "No SOCKS ports configured"
             )
 
         socks_config = None
         if port is None:
-            socks_config = self.SocksPort[0]
+            socks_config = usable[0]
         else:
             port = str(port)  # in case e.g. an int passed in
             if ' ' in port:
@@ -648,7 +650,7 @@ class TorConfig:
                     "Can't specify options; use create_socks_endpoint instead"
                 )
 
-            for idx, port_config in enumerate(self.SocksPort):
+            for idx, port_config in enumerate(usable):
                 # "SOCKSPort" is a gnarly beast that can have a bunch
                 # of options appended, so we have to split off the
                 # first thing which *should* be the port (or can be a
@@ -690,11 +692,12 @@ class TorConfig:
         yield self.post_bootstrap
 
         if socks_config is None:
-            if len(self.SocksPort) == 0:
+            usable = [p for p in self.SocksPort if p.split()[0] != '0']
+            if len(usable) == 0:
                 raise RuntimeError(
                     "socks_port is None and Tor has no SocksPorts configured"
                 )
-            socks_config = self.SocksPort[0]
+            socks_config = usable[0]
         else:
             wanted = socks_config.split()[0]
             if not any([port.split()[0] == wanted for port in self.SocksPort]):
